@@ -352,9 +352,12 @@ impl Pool {
          *
          * o The client's current address as recorded in the client's current
          *   binding, ELSE */
-        if let Some(lease) = self
+        /* A client can hold leases in several pools (eg it moved between networks), so look at
+         * all of them rather than just the most recent one.
+         */
+        let current = self
             .conn
-            .query_row(
+            .prepare_cached(
                 "SELECT
                address,
                expiry,
@@ -365,27 +368,36 @@ impl Pool {
              AND expiry > ?2
              ORDER BY
               address=?3 DESC,
-              expiry DESC
-             LIMIT 1",
-                rusqlite::params![
-                    clientid,
-                    ts as u32,
-                    requested
-                        .map(|ip| ip.to_string())
-                        .unwrap_or_else(|| "".into())
-                ],
-                |row| {
-                    Ok(Some((
-                        row.get::<usize, String>(0)?,
-                        row.get::<usize, u32>(1)?,
-                        row.get::<usize, u32>(2)?,
-                    )))
-                },
+              expiry DESC",
             )
-            .or_else(map_no_row_to_none)?
-            && let Ok(ip) = lease.0.parse::<std::net::Ipv4Addr>()
-            && addresses.contains(&ip)
-        {
+            .and_then(|mut stmt| {
+                stmt.query_map(
+                    rusqlite::params![
+                        clientid,
+                        ts as u32,
+                        requested
+                            .map(|ip| ip.to_string())
+                            .unwrap_or_else(|| "".into())
+                    ],
+                    |row| {
+                        Ok((
+                            row.get::<usize, String>(0)?,
+                            row.get::<usize, u32>(1)?,
+                            row.get::<usize, u32>(2)?,
+                        ))
+                    },
+                )?
+                .collect::<Result<Vec<_>, _>>()
+            })
+            .map_err(|e| Error::emit("Database query Error", &e))?;
+        if let Some((ip, lease)) = current.iter().find_map(|lease| {
+            lease
+                .0
+                .parse::<std::net::Ipv4Addr>()
+                .ok()
+                .filter(|ip| addresses.contains(ip))
+                .map(|ip| (ip, lease))
+        }) {
             // We want leases to double in size.  But normally you renew your
             // lease at ½ the duration.  We don't want to always just double
             // the lease, because you can accidentally end up with a ridiculously
@@ -403,9 +415,9 @@ impl Pool {
          * expired or released) binding, if that address is in the server's
          * pool of available addresses and not already allocated, ELSE */
 
-        if let Some(lease) = self
+        let previous = self
             .conn
-            .query_row(
+            .prepare_cached(
                 "SELECT
                address,
                start,
@@ -417,26 +429,35 @@ impl Pool {
              ORDER BY
                address=?2 DESC,
                expire_time DESC
-             LIMIT 1
              ",
-                rusqlite::params![
-                    clientid,
-                    requested
-                        .map(|ip| ip.to_string())
-                        .unwrap_or_else(|| "".into())
-                ],
-                |row| {
-                    Ok(Some((
-                        row.get::<usize, String>(0)?,
-                        row.get::<usize, u32>(1)?,
-                        row.get::<usize, u32>(2)?,
-                    )))
-                },
             )
-            .or_else(map_no_row_to_none)?
-            && let Ok(ip) = lease.0.parse::<std::net::Ipv4Addr>()
-            && addresses.contains(&ip)
-        {
+            .and_then(|mut stmt| {
+                stmt.query_map(
+                    rusqlite::params![
+                        clientid,
+                        requested
+                            .map(|ip| ip.to_string())
+                            .unwrap_or_else(|| "".into())
+                    ],
+                    |row| {
+                        Ok((
+                            row.get::<usize, String>(0)?,
+                            row.get::<usize, u32>(1)?,
+                            row.get::<usize, u32>(2)?,
+                        ))
+                    },
+                )?
+                .collect::<Result<Vec<_>, _>>()
+            })
+            .map_err(|e| Error::emit("Database query Error", &e))?;
+        if let Some((ip, lease)) = previous.iter().find_map(|lease| {
+            lease
+                .0
+                .parse::<std::net::Ipv4Addr>()
+                .ok()
+                .filter(|ip| addresses.contains(ip))
+                .map(|ip| (ip, lease))
+        }) {
             return Ok(Lease {
                 ip,
                 /* If a device is constantly asking for the same lease, we should double
